@@ -209,6 +209,16 @@ class Service(object):
             raise
         if data is not None:
             req.body = data
+        # a declared length larger than the bytes that follow is an
+        # incomplete transmission (the server would wait for the rest), not
+        # an input: clamp it to what is actually sent
+        cl = (headers or {}).get('Content-Length')
+        if isinstance(cl, str) and cl.isascii() and cl.isdigit():
+            sent = len(data) if data is not None else 0
+            if int(cl) > sent:
+                req.environ['CONTENT_LENGTH'] = str(sent)
+            elif data is not None:
+                req.environ['CONTENT_LENGTH'] = cl
         if environ:
             req.environ.update(environ)
         try:
